@@ -14,8 +14,8 @@ LEVEL = 'exploration'
 RULE = ("every tree shape with <=L levels/<=N leaves x label scheme; per "
         "scenario the full product iterations {1,2,3,7} x n_runners_up "
         "{0,1,2,10} x {no reduction, flatten, drop each non-leaf level}, "
-        "iteration counts at integer-type boundaries (255,256,257; 65535/6 "
-        "thorough) with unanimous and split votes, "
+        "iteration counts at integer-type boundaries (255,256,257; thorough also 127,128 and, "
+        "on every 24th shape, 65535/6) with unanimous and split votes, "
         "bootstrap factor 0.5 so votes split, plus tie scenarios (two "
         "identical leaves, constant leaf).  Every record of every output is "
         "checked.  distinct_nontrivial = distinct (shape, scheme, config) "
@@ -51,7 +51,8 @@ def cases(tier, seed):
                        'n_runners_up': b['n_runners_up'],
                        'boundary_iterations': (
                            [255, 256, 257] if tier == 'quick'
-                           else [127, 128, 255, 256, 257, 65535, 65536]),
+                           else [127, 128, 255, 256, 257] + (
+                               [65535, 65536] if si % 24 == 0 else [])),
                        'spec_extra': extra}
 
 
